@@ -70,6 +70,8 @@ def run(ctx: Context) -> None:
     ctx.rule('R17.3', "the re-parse comparison dominates the return and its failure raises", floor=2)
     ctx.rule('R17.4', "to_netcdf_with_fixes works on a shallow copy, suppresses default fill values on the copy before writing, and rewrites the time units after the write and only when a time variable is given; the suppression never overrides an existing _FillValue", floor=7)
     ctx.rule('R17.5', "exception agreement: time_coordinate raises NoSuchCoordinateError and every handler around it names one of its ancestors; the save method forwards dataset, path and options; the time variable is discovered by its decoded units alone", floor=7)
+    from . import infra as _infra175
+    _infra175.shoc_time_names(ctx, 'R17.5')
     ctx.rule('R17.6', "helpers of the save path: the time variable is found among all variables, fill suppression visits every variable, and the default calendar is the proleptic Gregorian one", floor=4)
     from . import infra as _infra
     _infra.lookup_namespace(ctx, 'R17.6', ['time_coordinate'])
@@ -521,6 +523,7 @@ from ..variants import V  # noqa: E402
 _U = 'src/emsarray/utils.py'
 _B = 'src/emsarray/conventions/_base.py'
 VARIANTS = [
+    V('C17', 'shoc-simple-time-under-another-name', 'src/emsarray/conventions/shoc.py', "        name = 'time'\n", "        name = 'tim'\n", 'R17.5'),
     V('C17', 'encoding-argument-looked-up-under-another-name', 'src/emsarray/utils.py', "    if kwargs.get('encoding'):\n", "    if kwargs.get('encodings'):\n", 'R17.4'),
     V('C17', 'time-bounds-taken-for-time', 'src/emsarray/conventions/_base.py', "            if name in bounds_names:\n                # The bounds of a time coordinate are decoded like the coordinate\n                continue\n", "", 'R17.5'),
     V('C17', 'bounds-names-from-data-vars', 'src/emsarray/utils.py', "        for variable in dataset.variables.values()\n        if 'bounds' in variable.attrs", "        for variable in dataset.data_vars.values()\n        if 'bounds' in variable.attrs", 'R17.5'),
